@@ -13,7 +13,7 @@
 import os, json
 from .. import tlc, tlaval, pipeline_common as pc
 
-CLAUSES = ['CreatedFirst', 'CreatedOnce', 'ClosedOnce', 'ClosedLast', 'FnAtMostOnce',
+CLAUSES = ['BoundLevelsSee', 'CreatedFirst', 'CreatedOnce', 'ClosedOnce', 'ClosedLast', 'FnAtMostOnce',
            'FnAfterCall', 'RetObjIffRet', 'ExcObjIffFault', 'DocStrMatch', 'LevelsFollow',
            'SvcSubApp', 'NoEscape']
 M1_INV = ['CreatedFirst', 'CreatedOnce', 'ClosedOnce', 'ClosedLast', 'FnAtMostOnce', 'FnAfterCall',
@@ -99,7 +99,13 @@ def run(ctx):
     sanity = [('NoExcObjOnSerFail', 'ExcObjIffFault')]
     pc.check_design(ctx, 'events', M1_INV, sanity)
     n_edges = replay_events_graph(ctx, 3 if ctx.quick else 4)
-    scens = pc.export_scenarios(ctx, 'events')
+    # the event family, plus the small WSGI family (request size limits, aborts, ?wsdl): the same clauses "for every call"
+    # (plain results, responses consumed to the end: generator bodies and aborts have their own clauses in C13)
+    scens = pc.export_scenarios(ctx, 'events') + [s for s in pc.export_scenarios(ctx, 'wsgitiny' if ctx.quick else 'wsgiq')
+                                                 if s['inj'].get('res', 'plain') == 'plain' and s['abort'] == 99 and s['req'].get('kind', 'rpc') == 'rpc']
+    for s in scens:
+        if s['cfg']['tr'] == 'wsgi' and s['cfg']['maxlen'] <= 4:
+            s['units'] = True          # lengths of the small WSGI family are in units (drive_pipeline.UNIT bytes)
     recs = []
     for s in scens:
         r = dp.run(s)
@@ -110,11 +116,13 @@ def run(ctx):
         ctx.violation('%s|%s' % ('+'.join(sorted(cl)), pc.scen_key(s)),
                       'clauses %s fail on the recorded history of scenario %s' % (sorted(cl), pc.scen_key(s)),
                       {'scenario': s, 'history': recs[i]['obs'], 'k': recs[i]['k']})
-    acc = pc.conformance(ctx, recs, 'events')
-    rej = [i for i in range(len(recs)) if i not in acc]
+    # exact conformance with the model is computed for the event family (the WSGI family is C13's)
+    erecs = [r for r in recs if not r['scen'].get('units')]
+    acc = pc.conformance(ctx, erecs, 'events')
+    rej = [i for i in range(len(erecs)) if i not in acc]
     if rej:
         ctx.notes.append('%d of %d histories are not behaviours of SpynePipeline (model drift, not a verdict); first: %s'
-                         % (len(rej), len(recs), pc.scen_key(recs[rej[0]]['scen'])))
+                         % (len(rej), len(erecs), pc.scen_key(erecs[rej[0]]['scen'])))
     ctx.cov_add(traces_validated_against_impl=len(recs) - len(fails), scenarios=len(recs),
                 conformant_histories=len(acc), evaluations=len(recs) + n_edges,
                 distinct_nontrivial=len(set(pc.scen_key(r['scen']) for r in recs)),
